@@ -6,6 +6,10 @@ namespace vh
 int cmd_games(const Args&);
 int cmd_trees(const Args&);
 int cmd_replay_legal(const Args&);
+int cmd_uci_replay(const Args&);
+int cmd_search_preserves(const Args&);
+int cmd_transpose(const Args&);
+int cmd_encode_table(const Args&);
 }
 
 #ifdef VH_EXTRA_DECLS
@@ -22,5 +26,9 @@ int main(int argc, char** argv)
     if (cmd == "games") return vh::cmd_games(a);
     if (cmd == "trees") return vh::cmd_trees(a);
     if (cmd == "replay-legal") return vh::cmd_replay_legal(a);
+    if (cmd == "uci-replay") return vh::cmd_uci_replay(a);
+    if (cmd == "search-preserves") return vh::cmd_search_preserves(a);
+    if (cmd == "transpose") return vh::cmd_transpose(a);
+    if (cmd == "encode-table") return vh::cmd_encode_table(a);
     return vh_dispatch_extra(cmd, a);
 }
